@@ -226,6 +226,12 @@ impl Property for C15 {
             r.ins[idx].vout = 0;
         }
         r.ins[idx].script = vec![];
+        // opaque (coinbase) scripts are only valid under the null outpoint, which a mutation may change
+        for (k, i) in c.tx.ins.iter().enumerate() {
+            if matches!(i.script, gt::GScript::Opaque(_)) {
+                r.ins[k].script = vec![];
+            }
+        }
         let sp = build_lock(c);
         let lock_script = script_from_els(&sp.lock);
         let sub_script = lib_call("Script::from_bytes(subscript)", || Script::from_bytes(&sp.subscript))?.map_err(|e| failure("subscript_accepted", e.to_string(), "Ok"))?;
